@@ -87,9 +87,9 @@ func (a AuthCase) Sx() string {
 		}
 		toks[i] = "(token " + strings.Join(bs, " ") + ")"
 	}
-	ops := make([]string, len(a.Ops))
-	for i, o := range a.Ops {
-		ops[i] = o.Sx()
+	ops := make([]string, 0, len(a.Ops))
+	for _, o := range a.Ops {
+		ops = append(ops, o.Sx()) // "(savekeep)" is skipped by the model: saving changes nothing
 	}
 	ctor := a.Ctor
 	if ctor == "" {
@@ -172,7 +172,7 @@ func decAuthCase(cs *Sx) (AuthCase, error) {
 			op.Policy, err = decPolicy(o.List[1])
 		case "saveload":
 			fmt.Sscanf(o.List[1].Atom, "%d", &op.Tok)
-		case "authorize", "reset":
+		case "authorize", "reset", "savekeep":
 		default:
 			err = fmt.Errorf("bad op %s", o)
 		}
@@ -452,6 +452,8 @@ func goAuthSeq(a AuthCase) (res string) {
 			}
 		case "reset":
 			az.Reset()
+		case "savekeep":
+			az.SerializePolicies() // result and error discarded: only its effect on az matters
 		case "load":
 			scratch, err := newAuthorizer(toks[0], a)
 			if err != nil {
